@@ -11,7 +11,8 @@ HARNESSES = {
 }
 
 _BLOCK_MODULES = ["Astria.Block.Model", "Astria.Block.Rfc", "Astria.Block.Chain", "Astria.Block.Group",
-                  "Astria.Block.Build", "Astria.Block.Tamper", "Astria.Block.Receive"]
+                  "Astria.Block.Build", "Astria.Block.Tamper", "Astria.Block.Receive", "Astria.Block.Wire",
+                  "Astria.Block.Reencode", "Astria.Block.FlatComplete"]
 _WIRE_MODULES = ["Astria.Block.Model", "Astria.Block.Rfc", "Astria.Block.Chain", "Astria.Block.Group", "Astria.Block.Build",
                  "Astria.Block.Tamper", "Astria.Block.Wire", "Astria.Block.Reencode"]
 
@@ -20,7 +21,9 @@ PROPS = {
         "level": "proof",
         "lean_modules": _BLOCK_MODULES + ["Astria.Properties.C07"],
         "theorems": ["Astria.C07_data_exact", "Astria.C07_honest_proposer_builds", "Astria.C07_proofs_verify",
-                     "Astria.C07_built_block_accepted", "Astria.C07_filter_serves_exactly", "Astria.C07_grpc_filter_serves_exactly",
+                     "Astria.C07_built_block_accepted", "Astria.C07_index_walk_accepts_rfc_paths",
+                     "Astria.C07_built_block_accepted_by_crate_verifier", "Astria.C07_filter_serves_exactly",
+                     "Astria.C07_grpc_filter_serves_exactly",
                      "Astria.C07_verifiers_sound",
                      "Astria.C07_full_tamper_evident", "Astria.C07_filtered_tamper_evident",
                      "Astria.C07_celestia_tamper_evident", "Astria.C07_receiver_attribution",
@@ -59,26 +62,30 @@ PROPS = {
                          "harnesses /verif/harness/conductor/blobs.rs, /verif/harness/sequencer/grpc.rs, shared /verif/harness/block_codec.rs (text codec, error-kind "
                          "extraction from Debug output, wiremock sequencer, cnidarium TempStorage) + Lean driver "
                          "(codec, Lean SHA-256)",
-                         "astria-merkle's tree / proof construction is taken to be RFC 6962 (MTH and audit path): compared byte for byte on every generated "
-                         "block, proved only for verification soundness (C08); sha2, prost, brotli, celestia-types, tendermint, ed25519"],
+                         "astria-merkle's tree / proof CONSTRUCTION is taken to be RFC 6962 (MTH and audit path): compared byte for byte on every generated "
+                         "block; its VERIFICATION (index walk) is modelled exactly (Astria.Merkle.Flat) and proved sound and complete w.r.t. RFC 6962; "
+                         "sha2, prost, brotli, celestia-types, tendermint, ed25519"],
         "assumptions": ["hash functions are parameters of every theorem; digests are 32 bytes long (Hashes.Sized — a fact of the Rust types)",
                         "tamper evidence is relative to the block's data_hash: nothing in the receivers binds data_hash (astria's own tree over block.data) to the "
                         "CometBFT block hash that the conductor compares with the sequencer's commit (DESIGN §10 / report: observation O1)",
                         "ItemsOk: no item of block.data other than the two commitments is exactly 32 bytes long — the receivers do not pin the position of the "
                         "commitments (proof index and tree size are attacker supplied), so the commitments are told apart from transactions by length",
-                        "a built block is shown to pass the receivers' Merkle checks for RFC 6962 verification (rfcV); that astria-merkle's index walk accepts the "
-                        "same honest proofs is checked on every generated block, not proved",
+                        "Small: the trees of a block have fewer than 2^61 leaves (index arithmetic of the crate's walk stays far below usize); WF: the "
+                        "non-Merkle header fields are ones tendermint's types accept (only for the raw round trip of a built block)",
+                        "the builder's tree root / construct_proof are modelled by RFC 6962 MTH / audit path (compared byte for byte on every generated block); "
+                        "that the crate's index walk accepts exactly these paths is PROVED (C07_index_walk_accepts_rfc_paths), the flat-array construction itself is not",
                         "the deposits map is modelled as an association list with distinct keys; sort_unstable_keys as insertion sort (keys distinct)",
                         "verify_metadata's duplicate-block-hash resolution depends on task scheduling and is not modelled (the generator produces no duplicates)"],
         "explanation": "theorems for all blocks and all hash functions: data exactness and the sorted id set by induction over the grouping fold and the sort; "
-                       "completeness of RFC 6962 audit paths; tamper evidence by a hash-chain membership argument that covers both verifiers; receiver "
+                       "completeness of RFC 6962 audit paths, and of the crate's complete_parent walk on them (induction over the tree with the in-order "
+                       "index arithmetic); tamper evidence by a hash-chain membership argument that covers both verifiers; receiver "
                        "attribution by induction over the conductor's matching loop; counterexample for the unchanged reconstruct.rs",
     },
     "C17": {
         "level": "other",
         "lean_modules": _WIRE_MODULES + ["Astria.Properties.C17"],
         "theorems": ["Astria.C17_decode_total", "Astria.C17_accepted_consistent", "Astria.C17_accepted_consistent_full_partial",
-                     "Astria.C17_full_block_rollup_proofs_counterexample", "Astria.C17_reencode",
+                     "Astria.C17_accepted_consistent_full_fixed", "Astria.C17_full_block_rollup_proofs_counterexample", "Astria.C17_reencode",
                      "Astria.C17_transaction_consistent"],
         "harnesses": ["block"],
         "monitors": ["wire_no_panic", "wire_reencode", "wire_accepted_consistent", "no_panic", "reencode",
@@ -120,7 +127,9 @@ TEXT = {
         "text": "Lean 4 model of SequencerBlockBuilder::try_build (grouping, sort, both commitments, per-rollup proofs), the three receivers' try_from_raw "
                 "with their error kinds, to_filtered_block, split_for_celestia and the conductor's convert / verify_metadata / reconstruct, parametric in the "
                 "hash functions and reusing the Merkle model. Theorems for ALL blocks: per-rollup data = submissions in block order ++ deposits, ids = strictly "
-                "sorted set of rollups with data; every produced proof verifies; a built block passes all receivers (any filter request); filtering serves "
+                "sorted set of rollups with data; every produced proof verifies; a built block passes all receivers (any filter request) — under RFC 6962 "
+                "verification and under astria-merkle's own index walk (proved: the walk accepts RFC 6962 audit paths), also through the raw protobuf "
+                "round trip; to_filtered_block and the sequencer's gRPC filter serve "
                 "exactly the requested present entries; whatever a receiver accepts under the block's data hash — full, filtered or Celestia form plus blob "
                 "audit — is the built data or an explicit SHA-256 collision is constructed (altered, reordered, truncated, extended, re-attributed data "
                 "rejected), for both the RFC 6962 verifier and astria-merkle's index walk; the conductor with a rollup-id check attaches only an audited blob of "
@@ -130,7 +139,7 @@ TEXT = {
         "design_ref": "DESIGN.md §6 C07",
         "note": "Trusted: Lean kernel, hand-written model, harness/driver, sha2/prost/brotli/tendermint. Open findings reported as KNOWN-FINDING: F10 (conductor "
                 "attaches another rollup's blob) and FB1 (SequencerBlock::try_from_raw never verifies the per-rollup proofs it returns). Tamper evidence is "
-                "relative to data_hash; completeness is proved for RFC 6962 verification and checked by evaluation for the crate's index walk.",
+                "relative to data_hash (nothing binds it to the CometBFT block hash).",
         "technique": "Lean 4 proof (induction over folds / audit paths / the matching loop; collision extractors) + differential correspondence and "
                      "spec monitors on the real astria-core and astria-conductor code",
     },
